@@ -8,7 +8,7 @@ RULE = ("the same program set is executed by executors compiled for baseline x86
         "model and the ordered transcripts of all builds must be identical shard by shard. Workload: SHA-224/256 with prefix chunk {0,1,63} bytes then one update of "
         "k blocks (k = 1..=20, +0/+1 trailing bytes) from a buffer at every byte offset 0..=31 (quick: offsets {0,1,4,8,16,31}, k in {1,3,4,5,8,9,12,20}), and two "
         "consecutive multi-block updates; BLAKE2b/s keyed/unkeyed x outlen {1,32,max} x lengths {0,1,B-1,B,B+1,2B,2B+1,5B} x offsets; the complete C03 grid (SSE2 "
-        "contexts and the portable engine through the hook); HMAC, PBKDF2, scrypt and Argon2 spot programs; C01 shards for all variants (compiler-level differences); "
+        "contexts and the portable engine through the hook); HMAC, PBKDF2, scrypt and Argon2 spot programs; the BLAKE2 / cipher counter-crossing hook programs of C20; C01 shards for all variants (compiler-level differences); "
         "counts are summed over the builds; distinct = program text")
 ASSUMPTIONS = ["reference models as in C01, C03, C08, C10, C11", "only x86-64 feature sets the host CPU has are built; the aarch64 path is not buildable here"]
 
@@ -46,6 +46,7 @@ def shards(tier):
         for which in ("b", "s"):
             sh.append(("shard_blake2", (b, which)))
         sh.append(("shard_spots", b))
+        sh.append(("shard_counters", b))
     foreign = multi.foreign_jobs(["c03"], tier, BUILDS) + multi.foreign_jobs(["c01"], "quick", BUILDS)
     sh += [("shard_foreign", j) for j in foreign]
     return sh
@@ -133,6 +134,21 @@ def shard_spots(build, tier):
     ck.run(cases)
     ck.stats.states = len(cases)
     return _finish(ck, "spots", build)
+
+
+def shard_counters(build, tier):
+    """the counter-crossing hook programs of C20 (BLAKE2 byte counters next to 2^31, 2^32, 2^63, 2^64 and the high-word wrap; cipher
+    block counters) on every vector build: the vector compressions take the counter words as lanes"""
+    from . import c20
+    core.BUILD_OVERRIDE = build
+    try:
+        ck = core.Checker(PROPERTY_ID)
+    finally:
+        core.BUILD_OVERRIDE = None
+    cs = c20.counter_cases()
+    ck.run(cs)
+    ck.stats.states = len(cs)
+    return _finish(ck, "counters", build)
 
 
 def shard_foreign(job, tier):
